@@ -103,6 +103,8 @@ def run(check: Check):
     ff = info['ff']
     ys = [(n, y) for n, y in ff.yields()]
     full_arm = pad_arm = False
+    seen_full = seen_pad = False
+    wrong_pred = False
     FM = next((d.name for ds in ff.rd.defs_at.values() for d in ds if isinstance(d.value, ast.Call) and ff.ext(d.value.func) == 'numpy.ones'), None)
     PROC = info['processed']
     for n, y in ys:
@@ -110,9 +112,13 @@ def run(check: Check):
       preds = [(_full_pred(t, info['stop']), pol) for t, pol in g]
       preds = [(p, pol) for p, pol in preds if p is not None]
       if not preds:
+        # a comparison of the batch end with the data size that is not the full-batch predicate (strict / shifted): a wrong split
+        if any(isinstance(t, ast.Compare) and info['stop'] in {txt(t.left), txt(t.comparators[0])} and 'self._data_size' in txt(t) for t, _ in g):
+          wrong_pred = True
         continue
       is_full = preds[0][0] == preds[0][1]
       v = y.value
+      seen_full, seen_pad = seen_full or is_full, seen_pad or not is_full
       if is_full:
         full_arm = isinstance(v, ast.Dict) and any(k is None for k in v.keys) and any(
             isinstance(k, ast.Name) and k.id == 'EXAMPLE_MASK_KEY' for k in v.keys if k is not None) and any(
@@ -120,9 +126,20 @@ def run(check: Check):
       else:
         pad_arm = isinstance(v, ast.Call) and wmean.repo_fn(ff, v) == f'{MOD}:pad_examples' and len(v.args) == 2 and txt(
             v.args[1]) == 'self._final_batch_size' and txt(v.args[0]) == PROC
-    check.ob('R-SIB.view', pv, 'stop <= size: all-True mask / else pad_examples(processed, final_batch_size)', full_arm and pad_arm,
+    check.ob('R-SIB.view', pv, 'stop <= size: all-True mask / else pad_examples(processed, final_batch_size)',
+             False if wrong_pred else ((full_arm and pad_arm) if (seen_full and seen_pad) else None),
              f'full batches get an all-True mask (ok={full_arm}); only the incomplete final batch is padded, to the precomputed '
              f'final size (ok={pad_arm})')
+    # padding is applied to what the preprocessor returned (the preprocessor never sees padding rows)
+    for _, c in ff.calls():
+      if wmean.repo_fn(ff, c) == f'{MOD}:pad_examples' and c.args:
+        srcs = ff.expand(c.args[0])
+        from_pre = any(isinstance(v, ast.Call) and txt(v.func).endswith('.preprocessor') for v in srcs)
+        from_raw = any(isinstance(v, ast.Call) and wmean.repo_fn(ff, v) == f'{MOD}:slice_examples' for v in srcs)
+        check.ob('R-SIB.view', pv, txt(c)[:70], True if from_pre and not from_raw else (False if from_raw else None),
+                 'the incomplete batch is padded after preprocessing' if not from_raw else
+                 'the raw slice is padded before the preprocessor runs: the preprocessor then sees (and may spread) the zero padding rows, '
+                 'and the mask no longer describes its output', node=c)
     # full mask is all ones of batch_size
     fm = any(d.name == FM and isinstance(d.value, ast.Call) and ff.ext(d.value.func) == 'numpy.ones' and 'self._batch_size' in txt(
         d.value.args[0]) and 'bool' in txt(d.value) for ds in ff.rd.defs_at.values() for d in ds)
